@@ -949,6 +949,12 @@ def np_sum(I, args, kwargs):
     v = args[0]
     if isinstance(v, SArr) and v.dtype == "bool" and v.ndim == 1:
         return _sum(I, [v], {})
+    if isinstance(v, SArr) and v.dtype in ("int", "real") and v.ndim in (1, 2):
+        # sum of a numeric array: an uninterpreted aggregate, recorded with the array it is given (like np.average)
+        kw = dict(kwargs)
+        if len(args) > 1:
+            kw["axis"] = args[1]
+        return _record_agg(I, "numpy.sum", v, kw)
     raise Undecided("np.sum of numeric array")
 
 
@@ -1683,3 +1689,17 @@ def np_sign(I, args, kwargs):
     if isinstance(v, SArr):
         return ops.map_arr(v, sg, dtype="real")
     return sg(v)
+
+
+@lib("numpy.ndim")
+def np_ndim(I, args, kwargs):
+    v = args[0]
+    if isinstance(v, SArr):
+        return v.ndim
+    if isinstance(v, SSeries):
+        return 1
+    if isinstance(v, SFrame):
+        return 2
+    if is_numlike(v):
+        return 0
+    raise Undecided(f"np.ndim of {v!r}")
